@@ -16,6 +16,20 @@ Sampled (seeded, deterministic given VERIF_SEED):
     receiving a hyperedge that is already present (re-insertion).  A wrong degree after a re-insertion is reported
     under one key of its own (common to the four degree functions), because it has a different cause than a wrong
     degree on a plainly constructed hypergraph.
+Query - edit - query again on the SAME object (every measure above is a function of the hypergraph's current content,
+so the definitions must also hold when the same object has been asked before and edited since):
+  * exhaustive: every hypergraph of the enumeration with node set {0..n-1} and 1..k hyperedges x every replacement of
+    one hyperedge e (remove_edge) by a hyperedge f that is absent (add_edge) - which keeps the number of nodes and
+    of hyperedges.  quick: n = 2, 3 with k <= 3 and n = 4 with k = 1, f any absent admissible hyperedge; n = 4 with
+    k <= 2, f = the reverse of e (also keeps the size of every hyperedge and the node set of e).  thorough: n <= 3 with
+    k <= 4 and n = 4 with k <= 2, any f; n = 4 with k <= 3 and n = 5 with k <= 2, f = reverse of e;
+  * sampled: random construction histories as above (without re-insertion) followed by 1..3 edit rounds on nodes that
+    are already there - replace a hyperedge by its reverse, by a fresh one, two by two fresh ones (insertions before
+    or after the removals), and, less often, only add / only remove one hyperedge (3000 quick / 40000 thorough).
+  All clauses are evaluated before the first edit and again after every round, with the same filters and bounds,
+  against the ghost set at that point.  Evaluations after an edit are recorded under their own clause names
+  ("... - asked again on the same object after an edit"): a failure there with the plain clause holding means a
+  result that does not follow the edit (e.g. memoised on the node / hyperedge counts).
 On every such hypergraph: every node, every filter in {none, size=1..7, order=0..6} (exhaustive part: size=1..n+1,
 order=0..n), every bound max_hyperedge_size in 2..6 - which includes bounds below the largest hyperedge - and for the
 signature also the default bound None (documented as "the largest hyperedge size"; skipped on the empty hypergraph).
@@ -31,7 +45,8 @@ remove).  Everything is recomputed from that set by literal set comprehensions /
   strong(s) = #{e, |e|=s : for all u in source(e) exists t in target(e), f : t in source(f), u in target(f)} / ...
   weak(s)   = #{e, |e|=s : exists  u in source(e), t in target(e), f : t in source(f), u in target(f)} / ...
 The implementation is observed only through hypergraphx.measures.directed.* return values and DirectedHypergraph's
-public constructor / add_nodes / add_edge / remove_edge / get_nodes.
+public constructor / add_nodes / add_edge / remove_edge / get_nodes.  Edits never insert a hyperedge that is present at
+that moment (a hyperedge removed in an earlier round may come back).
 
 Readings / limits
 -----------------
@@ -53,6 +68,7 @@ PROPERTY = "C12"
 
 M = "measures.directed."
 RAISES = "does not raise on admissible input"
+AGAIN = " - asked again on the same object after an edit"
 REKEY_DEG = "measures.directed.in_degree/out_degree(_sequence):a re-inserted hyperedge is counted once"
 BOUNDS = (2, 3, 4, 5, 6)
 TOL = 1e-9
@@ -107,26 +123,61 @@ def _fz(s, t):
     return (frozenset(s), frozenset(t))
 
 
-def model_of(spec):
-    """Ghost model: (set of (frozenset src, frozenset tgt), set of nodes the driver put in, re-inserted?)."""
-    edges, nodes, reins = set(), set(spec.get("nodes") or []), False
-    for s, t in spec["edges"]:
-        e = _fz(s, t)
-        reins |= e in edges
+def _apply_model(edges, op):
+    """Apply one op to the ghost set; True when it inserts a hyperedge that is already there."""
+    e = _fz(op[1], op[2])
+    if op[0] == "add":
+        again = e in edges
         edges.add(e)
+        return again
+    edges.discard(e)
+    return False
+
+
+def model_stages(spec):
+    """Ghost model at every point where the object is queried: after the construction history (stage 0) and after
+    every round of spec['edits'] (stage 1, 2, ...).  Each entry: (set of (frozenset src, frozenset tgt), set of nodes
+    the driver put in and that the hypergraph must therefore list).  Second result: was a hyperedge re-inserted?"""
+    edges, base, reins = set(), set(spec.get("nodes") or []), False
+    for s, t in spec["edges"]:
+        reins |= _apply_model(edges, ["add", s, t])
     for op in spec.get("ops") or []:
-        e = _fz(op[1], op[2])
+        reins |= _apply_model(edges, op)
+
+    def snap():
+        nodes = set(base)
+        for s, t in edges:
+            nodes |= s | t
+        return set(edges), nodes
+
+    stages = [snap()]
+    for rnd in spec.get("edits") or []:
+        for op in rnd:
+            reins |= _apply_model(edges, op)
+        stages.append(snap())
+    return stages, reins
+
+
+def model_of(spec):
+    """Final ghost model: (set of (frozenset src, frozenset tgt), set of nodes the driver put in, re-inserted?)."""
+    stages, reins = model_stages(spec)
+    return stages[-1][0], stages[-1][1], reins
+
+
+def apply_ops(h, ops, weighted):
+    for op in ops:
+        e = (tuple(op[1]), tuple(op[2]))
         if op[0] == "add":
-            reins |= e in edges
-            edges.add(e)
+            if weighted:
+                h.add_edge(e, weight=op[3])
+            else:
+                h.add_edge(e)
         else:
-            edges.discard(e)
-    for s, t in edges:
-        nodes |= s | t
-    return edges, nodes, reins
+            h.remove_edge(e)
 
 
 def build(spec):
+    """The object after the construction history (constructor, add_nodes, spec['ops']); spec['edits'] not applied."""
     from hypergraphx import DirectedHypergraph
     edges = [(tuple(s), tuple(t)) for s, t in spec["edges"]]
     w = spec.get("weights")
@@ -136,15 +187,7 @@ def build(spec):
         h = DirectedHypergraph(edge_list=edges)
     if spec.get("nodes"):
         h.add_nodes(list(spec["nodes"]))
-    for op in spec.get("ops") or []:
-        e = (tuple(op[1]), tuple(op[2]))
-        if op[0] == "add":
-            if w is not None:
-                h.add_edge(e, weight=op[3])
-            else:
-                h.add_edge(e)
-        else:
-            h.remove_edge(e)
+    apply_ops(h, spec.get("ops") or [], w is not None)
     return h
 
 
@@ -172,14 +215,39 @@ def _close(o, e):
 
 # ----------------------------------------------------------------------------------------------------------- checks
 def check_spec(rec, spec, filters):
-    """Evaluate every clause of C12 on the hypergraph described by spec."""
+    """Evaluate every clause of C12 on the hypergraph described by spec: once after its construction history and, on
+    the SAME object, once more after every round of spec['edits'] (same filters, same bounds)."""
+    stages, _ = model_stages(spec)
+    h = build(spec)
+    evaluate(rec, h, spec, stages[0], filters, 0)
+    for i, rnd in enumerate(spec.get("edits") or [], 1):
+        apply_ops(h, rnd, spec.get("weights") is not None)
+        rec.count("query rounds on an already queried object after an edit")
+        evaluate(rec, h, spec, stages[i], filters, i)
+
+
+def evaluate(rec, h, spec, model, filters, stage):
+    """All clauses on the object h whose expected content is model = (hyperedge set, node set).  stage > 0: h has
+    been queried before and edited since; those evaluations are recorded under clause names ending in AGAIN."""
     import hypergraphx.measures.directed as md
 
-    edges, mnodes, _ = model_of(spec)
-    h = build(spec)
+    edges, mnodes = model
+    sfx = AGAIN if stage else ""
+    if stage:
+        spec = dict(spec, queried_after_edit_round=stage)  # only used for reporting
     nodes = list(h.get_nodes())
     sized = [(s, t, len(s) + len(t)) for s, t in edges]
     maxsize = max((z for _, _, z in sized), default=0)
+    _check = rec.check
+
+    class _R:  # the recorder seen by the clauses below: appends the stage suffix to the clause name
+        count = staticmethod(rec.count)
+
+        @staticmethod
+        def check(cond, function, clause, detail=None, key=None, rekey=None):
+            return _check(cond, function, clause + sfx, detail, key, rekey)
+
+    rec = _R
 
     def call(fname, *a, **kw):
         try:
@@ -401,6 +469,81 @@ def random_spec(seed, idx, force=None):
     return spec
 
 
+def _fresh_edge(r, labels, present, zmax=6):
+    """A random admissible hyperedge over `labels` that is not in `present` (None if none was found)."""
+    for _ in range(20):
+        z = r.randint(2, min(zmax, len(labels)))
+        mem = r.sample(labels, z)
+        k = r.randint(1, z - 1)
+        if _fz(mem[:k], mem[k:]) not in present:
+            return mem[:k], mem[k:]
+    return None
+
+
+def random_edit_spec(seed, idx):
+    """A random construction history (no re-insertion) followed by 1..3 edit rounds on nodes that are already there;
+    after every round the object is queried again.  Most rounds keep the number of nodes and of hyperedges (replace a
+    hyperedge by its reverse / by another one / two by two others); some only add or only remove one hyperedge.
+    Deterministic in (seed, idx)."""
+    r = random.Random(f"{seed}-c12-edit-{idx}")
+    spec = None
+    for j in range(50):
+        spec = random_spec(seed, f"e{idx}.{j}")
+        m_edges, _, m_reins = model_of(spec)
+        if m_edges and not m_reins:
+            break
+    else:  # practically unreachable; keeps the function total
+        spec = dict(edges=[[[0], [1]]])
+    cur, nodes, _ = model_of(spec)
+    cur = set(cur)
+    labels = sorted(nodes, key=repr)
+    for s, t in spec["edges"]:  # nodes of a removed hyperedge stay available as labels
+        labels += [x for x in list(s) + list(t) if x not in labels]
+    wt = lambda: r.choice((1, 2, 0.5, 3.25))  # noqa: E731
+    rounds = []
+    for _ in range(r.choice((1, 1, 2, 3))):
+        kind = r.choice(("reverse", "reverse", "replace", "replace", "replace", "two", "grow", "shrink"))
+        ops = []
+        lst = sorted(cur, key=lambda e: (sorted(map(repr, e[0])), sorted(map(repr, e[1]))))
+        if kind == "reverse":
+            cand = [e for e in lst if (e[1], e[0]) not in cur]
+            if cand:
+                s, t = r.choice(cand)
+                ops = [["remove", r.sample(sorted(s, key=repr), len(s)), r.sample(sorted(t, key=repr), len(t))],
+                       ["add", sorted(t, key=repr), sorted(s, key=repr), wt()]]
+        elif kind in ("replace", "two") and lst:
+            k = min(len(lst), 2 if kind == "two" else 1)
+            out = r.sample(lst, k)
+            present = set(cur)
+            for s, t in out:
+                f = _fresh_edge(r, labels, present)
+                if f is None:
+                    continue
+                present.add(_fz(*f))
+                ops.append(["remove", sorted(s, key=repr), sorted(t, key=repr)])
+                ops.append(["add", f[0], f[1], wt()])
+            if r.random() < 0.5:  # all insertions first, then the removals
+                ops.sort(key=lambda op: op[0] != "add")
+        elif kind == "grow":
+            f = _fresh_edge(r, labels, cur)
+            if f is not None:
+                ops = [["add", f[0], f[1], wt()]]
+        elif kind == "shrink" and lst:
+            s, t = r.choice(lst)
+            ops = [["remove", sorted(s, key=repr), sorted(t, key=repr)]]
+        if not ops:
+            continue
+        for op in ops:
+            _apply_model(cur, op)
+        rounds.append(ops)
+    spec["edits"] = rounds
+    return spec
+
+
+def _keeps_counts(rnd):
+    return sum(1 if op[0] == "add" else -1 for op in rnd) == 0
+
+
 def _work(task):
     rec = Rec()
     cases = []
@@ -415,6 +558,30 @@ def _work(task):
         for combo in combos:
             run_spec(rec, _spec_enum(n, combo), flt)
             cases.append((_desc_enum(n, combo), len(combo) > 0))
+    elif task[0] == "editenum":
+        # every hypergraph of the enumeration with k >= 1 hyperedges x every replacement of one hyperedge e by an
+        # admissible hyperedge f that is absent (mode "all") or by the reverse of e if absent (mode "reverse")
+        _, n, k, first, mode = task
+        E = admissible_edges(n)
+        flt = filters_for(n)
+        for rest in itertools.combinations(E[first + 1:], k - 1):
+            combo = (E[first],) + rest
+            for e in combo:
+                for f in (E if mode == "all" else [(e[1], e[0])]):
+                    if f in combo:
+                        continue
+                    spec = _spec_enum(n, combo)
+                    spec["edits"] = [[["remove", list(e[0]), list(e[1])], ["add", list(f[0]), list(f[1]), 1]]]
+                    run_spec(rec, spec, flt)
+                    cases.append((_desc_enum(n, combo) + "|edit:-" + _desc_enum(n, [e])[4:] + "+" + _desc_enum(n, [f])[4:], True))
+    elif task[0] == "randedit":
+        _, seed, lo, hi = task
+        for idx in range(lo, hi):
+            spec = random_edit_spec(seed, idx)
+            run_spec(rec, spec, FILTERS_FULL)
+            for rnd in spec["edits"]:
+                rec.count("random edit rounds: " + ("node and hyperedge counts kept" if _keeps_counts(rnd) else "one hyperedge added or removed"))
+            cases.append((spec, True))
     else:
         _, seed, lo, hi, force = task
         for idx in range(lo, hi):
@@ -448,6 +615,10 @@ def _tasks(ctx):
                 tasks.append(("enum", n, 0, 0))
             else:
                 tasks += [("enum", n, k, i) for i in range(ne - k + 1)]
+    for n, kmax, mode in _edit_enum(ctx):
+        ne = len(admissible_edges(n))
+        for k in range(1, kmax + 1):
+            tasks += [("editenum", n, k, i, mode) for i in range(ne - k + 1)]
     stasks = []
     for force, cnt in samp5:
         step = 1000
@@ -455,7 +626,17 @@ def _tasks(ctx):
                    for lo in range(0, cnt, step)]
     step = 500
     stasks += [("rand", ctx.seed, lo, min(lo + step, nrand), None) for lo in range(0, nrand, step)]
+    nedit = 3000 if ctx.quick else 40000
+    step = 250
+    stasks += [("randedit", ctx.seed, lo, min(lo + step, nedit)) for lo in range(0, nedit, step)]
     return tasks, stasks, ex
+
+
+def _edit_enum(ctx):
+    """(n, largest number of hyperedges, which replacements) of the exhaustive query-edit-query part."""
+    if ctx.quick:
+        return [(2, 2, "all"), (3, 3, "all"), (4, 1, "all"), (4, 2, "reverse")]
+    return [(2, 2, "all"), (3, 4, "all"), (4, 2, "all"), (4, 3, "reverse"), (5, 2, "reverse")]
 
 
 def run(ctx):
@@ -466,7 +647,10 @@ def run(ctx):
              "non-empty source/target; sampled: n=5 with 4 hyperedges and random histories on 2..6 nodes (labels ints / "
              "scattered ints / strings, sizes 2..6, <= 8 hyperedges, weighted or not, isolated nodes, remove_edge and "
              "re-insertion histories). One case = one hypergraph history; on it every node x every order/size filter x "
-             "every bound 2..6 is evaluated. Non-trivial = at least one hyperedge.")
+             "every bound 2..6 is evaluated. Non-trivial = at least one hyperedge. Query-edit-query histories: the same "
+             "evaluation before and, on the same object, after each round of remove_edge/add_edge edits on existing nodes "
+             "(exhaustive: every replacement of one hyperedge on small node sets; sampled: 1..3 rounds, mostly keeping the "
+             "node and hyperedge counts); one case = one such history.")
     ctx.assume("'reached from its targets' = reached through one hyperedge (the only reading under which exact <= strong <= weak can hold)")
     ctx.assume("strong/weak: where the statement is silent on whether the witnessing hyperedge must respect the bound, "
                "both readings are computed and either value is accepted")
@@ -482,7 +666,9 @@ def run(ctx):
     for (cases, counts, fails, counters), task in zip(results, alltasks):
         for desc, nontrivial in cases:
             ctx.case(desc, nontrivial=nontrivial)
-        ctx.count("hypergraphs, exhaustive part" if task[0] == "enum" else "hypergraphs, sampled part", len(cases))
+        ctx.count({"enum": "hypergraphs, exhaustive part", "editenum": "query-edit-query histories, exhaustive part",
+                   "randedit": "query-edit-query histories, sampled part"}.get(task[0], "hypergraphs, sampled part"),
+                  len(cases))
         for name, n in counts.items():
             ctx.contract_evals[name] = ctx.contract_evals.get(name, 0) + n
         for name, n in counters.items():
@@ -496,6 +682,12 @@ def run(ctx):
             f"all directed hypergraphs with node set 0..{n - 1} and <= {kmax} hyperedges out of the "
             f"{len(admissible_edges(n))} admissible ones (sizes 2..{n}); every node, every filter size=1..{n + 1} / "
             f"order=0..{n} / none, every bound 2..6")
+    for n, kmax, mode in _edit_enum(ctx):
+        ctx.exhaustive_parts.append(
+            f"query-edit-query on one object: all directed hypergraphs with node set 0..{n - 1} and 1..{kmax} "
+            f"hyperedges x every replacement of one hyperedge by "
+            + ("any absent admissible hyperedge" if mode == "all" else "its reverse (when absent)")
+            + "; all measures before and after, same filters and bounds")
 
 
 def replay(data):
